@@ -397,6 +397,7 @@ fn dict_case(cx: &mut Ctx, variant: u64, t: &[u8], queries: &[Vec<u8>]) {
                 Ok(ms) => {
                     let mut why = String::new();
                     if ms.depth != depth { why = format!("depth {} but the longest prefix of the query that occurs has length {}", ms.depth, depth); }
+                    else if depth == 0 { /* nothing matched: the range is not constrained */ }
                     else if ms.lo > ms.hi || ms.hi > n { why = format!("range ({}, {}) is not a rank range", ms.lo, ms.hi); }
                     else { let mut got = sa[ms.lo..ms.hi].to_vec(); got.sort(); if got != occ { why = format!("ranks [{}, {}) list {:?}, the matched prefix occurs at {:?}", ms.lo, ms.hi, &got[..got.len().min(10)], &occ[..occ.len().min(10)]); } }
                     if !why.is_empty() { cx.sum.fail(cell, None, cj.clone(), &format!("query {:?}: {}", &q[..q.len().min(16)], why)); }
@@ -565,7 +566,7 @@ pub fn run(args: &Args) {
         }
     }
     // ---- generated ----
-    let ng = if args.thorough { 20000 } else { 2400 };
+    let ng = if args.thorough { 50000 } else { 2400 };
     for i in 0..ng {
         let (t, kind) = gen_text(&mut rng, if i % 16 == 0 { 2000 } else { 260 });
         cx.sum.dist(&format!("text_{}", kind));
